@@ -6,6 +6,7 @@ import UmProofs.BrokerScaleDownC
 import UmProofs.BrokerScaleFinalB
 import UmProofs.BrokerScaleDisj
 import UmProofs.BrokerScaleFailover
+import UmProofs.BrokerScaleAdd
 /-!
 # C10 — Scaling completes to a balanced full partition and frees only empty chunks
 
@@ -254,6 +255,18 @@ theorem C10_balanced_create {s s' : Store} {name : String} {nodeNum : Nat} {cfg 
     ∃ cl, s'.findCluster name = some cl ∧ Balanced cl ∧ cl.chunks.length * 4 = nodeNum ∧
       BalancedShape cl.chunks cl.chunks.length :=
   addCluster_balanced h hsz
+
+/-- **C10_add_nodes_shape**: a successful `auto_add_nodes` appends `num / 4` whole empty chunks
+without migration entries and changes nothing else in the cluster but the epoch; hence the
+balanced shape `n` is kept (with more trailing slot-less chunks) — the starting point of
+`C10_balanced_scale_out` -/
+theorem C10_add_nodes_shape {s s' : Store} {name : String} {num : Nat} {choice : List (String × String)}
+    {cl : Cluster} (hf : s.findCluster name = some cl) (h : autoAddNodes s name num choice = (s', R.ok ())) :
+    ∃ extra, s'.findCluster name = some { cl with chunks := cl.chunks ++ extra, epoch := s.globalEpoch + 1 } ∧
+      EmptyChunks extra ∧ NoMigs extra ∧ extra.length * 4 = num ∧
+      ∀ n, BalancedShape cl.chunks n → BalancedShape (cl.chunks ++ extra) n := by
+  obtain ⟨extra, h1, h2, h3, h4⟩ := autoAddNodes_shape hf h
+  exact ⟨extra, h1, h2, h3, h4, fun n hn => balancedShape_append_empty hn h2⟩
 
 /-- the quotas of a balanced cluster differ by at most one and add up to `SLOT_NUM` -/
 theorem C10_quota (m : Nat) (hm : 0 < m) :
